@@ -339,3 +339,44 @@ func TestVerifFinding_C20_CascadeFallbackMasterStateIncomplete(t *testing.T) {
 		t.Fatalf("VIOLATION C20: repair of cascade replica c1 panicked with the master as fallback source while the master's state has neither MasterState nor SlaveState: panic: %v [%s]", p, where)
 	}
 }
+
+// (u) updateActiveNodes with master_first_adjust_ss_order while the master's state is incomplete.
+// History: semi-sync cluster m1 <- r1 (semi-sync member), r2 healthy replica about to join the HA group. In this
+// iteration SHOW REPLICA STATUS on m1 fails with a transient error after a successful ping, so the manager's state for
+// m1 has PingOk but no MasterState / SemiSyncState. With master_first_adjust_ss_order: true the master-side adjustment
+// is skipped before the replicas are handled (0 < 0 is false), and enableSemiSyncOnSlave reads
+// masterState.MasterState.ExecutedGtidSet.
+func TestVerifFinding_C20_EnableSemiSyncMasterStateIncomplete(t *testing.T) {
+	app, d := vfC20App(t)
+	app.config.SemiSync = true
+	app.config.MasterFirstAdjustSSOrder = true
+	app.switchHelper = mysql.NewSwitchHelper(app.config)
+	m1 := vfMaster("m1", vfC20Gtid)
+	r1 := vfReplica("r1", "m1", vfC20Gtid)
+	r2 := vfReplica("r2", "m1", vfC20Gtid)
+	m1.SemiSyncMaster, m1.WaitSlaveCount = true, 1
+	r1.SemiSyncSlave = true
+	vfAddNode(t, app, d, m1, false)
+	vfAddNode(t, app, d, r1, false)
+	vfAddNode(t, app, d, r2, false)
+	vfSetLocal(app, r1)
+	vfCompleteApp(t, app)
+	vfHealthFromDB(app, d)
+	d.put(pathMasterNode, "m1")
+	d.put(pathActiveNodes, []string{"m1", "r1"})
+	m1.mu.Lock()
+	m1.FailOn = map[string]error{"SHOW REPLICA STATUS": errors.New("Error 1317: Query execution was interrupted"), "SHOW SLAVE STATUS": errors.New("Error 1317: Query execution was interrupted")}
+	m1.mu.Unlock()
+	clusterState := app.getClusterStateFromDB()
+	clusterStateDcs, err := app.getClusterStateFromDcs()
+	if err != nil {
+		t.Fatal(err)
+	}
+	if ms := clusterState["m1"]; ms == nil || !ms.PingOk || ms.MasterState != nil {
+		t.Fatalf("scenario broken: state of m1 is %+v", ms)
+	}
+	p, where := vfC20Catch(func() { _ = app.updateActiveNodes(clusterState, clusterStateDcs, []string{"m1", "r1"}, "m1") })
+	if p != nil {
+		t.Fatalf("VIOLATION C20: updating the active nodes panicked while r2 joins the HA group and the master's state is incomplete (master_first_adjust_ss_order): panic: %v [%s]", p, where)
+	}
+}
